@@ -39,6 +39,58 @@ type Case struct {
 	Lang   int    `json:"lang"`              // 0 both, 1 Chinese, 2 English
 	Input  string `json:"input"`             // always valid UTF-8
 	ViaRun bool   `json:"via_run,omitempty"` // additionally observe through Context.Run
+	// Global: the host has called SetParseErrorLanguage(Global-1) (0 = never called): the package-wide default must not
+	// decide the language of a VM that has its own setting (sequential sections only)
+	Global int `json:"global,omitempty"`
+	// Custom: custom dice registered on the VM whose match may span blanks and line breaks: 1 = regex E(\d+)\s*,
+	// 2 = stream parser K<digits><blanks>; positions after such an operand are still those of the offset
+	Custom int `json:"custom,omitempty"`
+}
+
+// newVMFor builds the VM of a case (language, custom dice) and sets the package-wide default; the returned
+// function restores the default.
+func newVMFor(c Case) (*ds.Context, func()) {
+	restore := func() {}
+	if c.Global > 0 {
+		ds.SetParseErrorLanguage(c.Global - 1)
+		restore = func() { ds.SetParseErrorLanguage(ds.ParseErrorLanguageBilingual) }
+	}
+	vm := ds.NewVM()
+	vm.Config.ParseErrorLanguage = c.Lang
+	handler := func(ctx *ds.Context, groups []string, _ any) (*ds.VMValue, string, error) {
+		return ds.NewIntVal(7), "", nil
+	}
+	switch c.Custom {
+	case 1:
+		_ = vm.RegCustomDice(`E(\d+)\s*`, handler)
+	case 2:
+		_ = vm.RegCustomDiceParser(func(ctx *ds.Context, st *ds.CustomDiceStream) (*ds.CustomDiceParseResult, error) {
+			if r, ok := st.Read(); !ok || r != 'K' {
+				return &ds.CustomDiceParseResult{Matched: false}, nil
+			}
+			n := 0
+			for {
+				r, ok := st.Peek()
+				if !ok || r < '0' || r > '9' {
+					break
+				}
+				st.Read()
+				n++
+			}
+			if n == 0 {
+				return &ds.CustomDiceParseResult{Matched: false}, nil
+			}
+			for {
+				r, ok := st.Peek()
+				if !ok || (r != ' ' && r != '\n' && r != '\t' && r != '\r') {
+					break
+				}
+				st.Read()
+			}
+			return &ds.CustomDiceParseResult{Matched: true}, nil
+		}, handler)
+	}
+	return vm, restore
 }
 
 const (
@@ -59,10 +111,10 @@ func langName(l int) string {
 
 // parseText runs Context.Parse on a fresh VM and returns the error text ("" and
 // rejected=false when the input is accepted).
-func parseText(lang int, input string) (text string, rejected bool, pi *rt.PanicInfo) {
+func parseText(c Case, input string) (text string, rejected bool, pi *rt.PanicInfo) {
+	vm, restore := newVMFor(c)
+	defer restore()
 	pi = rt.Guard(func() {
-		vm := ds.NewVM()
-		vm.Config.ParseErrorLanguage = lang
 		if err := vm.Parse(input); err != nil {
 			text, rejected = err.Error(), true
 		}
@@ -70,10 +122,10 @@ func parseText(lang int, input string) (text string, rejected bool, pi *rt.Panic
 	return
 }
 
-func runText(lang int, input string) (text string, rejected bool, pi *rt.PanicInfo) {
+func runText(c Case, input string) (text string, rejected bool, pi *rt.PanicInfo) {
+	vm, restore := newVMFor(c)
+	defer restore()
 	pi = rt.Guard(func() {
-		vm := ds.NewVM()
-		vm.Config.ParseErrorLanguage = lang
 		vm.Config.OpCountLimit = 2000
 		if err := vm.Run(input); err != nil {
 			text, rejected = err.Error(), true
@@ -439,7 +491,7 @@ func checkCase(c Case, s *rt.Section) (fails []*rt.Failure, outcome string, info
 	if !utf8.ValidString(c.Input) {
 		return nil, "invalid-utf8-input", info
 	}
-	text, rejected, pi := parseText(c.Lang, c.Input)
+	text, rejected, pi := parseText(c, c.Input)
 	if pi != nil {
 		return nil, "panic-in-parse", info
 	}
@@ -451,7 +503,7 @@ func checkCase(c Case, s *rt.Section) (fails []*rt.Failure, outcome string, info
 		fails = append(fails, s.NewFailure(f.oracle, f.sig, c, f.observed+"\n--- error text ---\n"+text, f.expected))
 	}
 	if c.ViaRun {
-		t2, rej2, pi2 := runText(c.Lang, c.Input)
+		t2, rej2, pi2 := runText(c, c.Input)
 		if pi2 == nil && (!rej2 || t2 != text) {
 			fails = append(fails, s.NewFailure("parse-vs-run", "api:run-text-differs", c, fmt.Sprintf("Run: %q", t2), fmt.Sprintf("Parse: %q", text)))
 		}
@@ -783,7 +835,63 @@ func mutate(t *rapid.T, src string, n int, biasFirstLine bool) string {
 }
 
 // drawGenCase assembles: blank lead / valid preceding lines + broken piece + tail.
-func drawGenCase(t *rapid.T) (Case, string) {
+// drawHost draws what the host did besides choosing the VM's language: a package-wide default language (one case in
+// three) and custom dice whose match may take blanks and line breaks with it (one case in four).
+func drawHost(t *rapid.T, c *Case) {
+	if rapid.IntRange(0, 2).Draw(t, "hostGlobal") == 0 {
+		c.Global = rapid.IntRange(1, 3).Draw(t, "global")
+	}
+	if rapid.IntRange(0, 3).Draw(t, "hostCustom") == 0 {
+		c.Custom = rapid.IntRange(1, 2).Draw(t, "custom")
+	}
+}
+
+// injectCustom replaces up to two integer literals of the input by operands of the registered custom syntax followed
+// by blanks or line breaks (which belong to the match).
+func injectCustom(t *rapid.T, c *Case) {
+	if c.Custom == 0 {
+		return
+	}
+	letter := map[int]string{1: "E", 2: "K"}[c.Custom]
+	rs := []rune(c.Input)
+	var spots []int
+	for i := 0; i < len(rs); i++ {
+		if rs[i] >= '0' && rs[i] <= '9' && (i == 0 || !(rs[i-1] >= '0' && rs[i-1] <= '9') && !isWordRune(rs[i-1]) && rs[i-1] != '.') {
+			spots = append(spots, i)
+		}
+	}
+	n := rapid.IntRange(1, 2).Draw(t, "ncustom")
+	for k := 0; k < n && len(spots) > 0; k++ {
+		j := rapid.IntRange(0, len(spots)-1).Draw(t, "customSpot")
+		at := spots[j]
+		end := at
+		for end < len(rs) && rs[end] >= '0' && rs[end] <= '9' {
+			end++
+		}
+		op := letter + string(rs[at:end]) + pick(t, "customBlank", "\n", "\n", " \n", "\n\n ", " ", "\r\n", "\t\n  ")
+		rs = append(append(append([]rune{}, rs[:at]...), []rune(op)...), rs[end:]...)
+		spots = nil // offsets moved: one more pass only from a fresh scan
+		for i := 0; i < len(rs); i++ {
+			if rs[i] >= '0' && rs[i] <= '9' && (i == 0 || !(rs[i-1] >= '0' && rs[i-1] <= '9') && !isWordRune(rs[i-1]) && rs[i-1] != '.') {
+				spots = append(spots, i)
+			}
+		}
+	}
+	c.Input = string(rs)
+}
+
+func isWordRune(r rune) bool {
+	return r == '_' || r == '$' || (r >= 'a' && r <= 'z') || (r >= 'A' && r <= 'Z') || r > 127
+}
+
+func drawGenCase(t *rapid.T) (c Case, kind string) {
+	c, kind = drawGenCase0(t)
+	drawHost(t, &c)
+	injectCustom(t, &c)
+	return c, kind
+}
+
+func drawGenCase0(t *rapid.T) (Case, string) {
 	c := Case{Lang: rapid.IntRange(0, 2).Draw(t, "lang")}
 	if rapid.IntRange(0, 39).Draw(t, "degenerate") == 0 {
 		c.Input = pick(t, "blank", "", "", " ", "\n", "\r\n", "   ", "\t", "\n\n\n", " \n ", "  \r\n\t")
@@ -875,6 +983,8 @@ func drawMutCase(t *rapid.T) (Case, string) {
 	n := rapid.IntRange(1, 3).Draw(t, "nmut")
 	c.Input = mutate(t, src, n, true)
 	c.ViaRun = rapid.IntRange(0, 7).Draw(t, "viarun") == 0
+	drawHost(t, &c)
+	injectCustom(t, &c)
 	return c, "corpus"
 }
 
@@ -988,7 +1098,7 @@ func checkConc(c ConcCase, s *rt.Section, serial bool) (*rt.Failure, bool) {
 			for lang := 0; lang < 3; lang++ {
 				k := key{lang, in}
 				if _, ok := alone[k]; !ok {
-					txt, _, pi := parseText(lang, in)
+					txt, _, pi := parseText(Case{Lang: lang}, in)
 					if pi != nil {
 						return nil, false // outside this property
 					}
@@ -1117,7 +1227,7 @@ func concProp(t *rapid.T, s *rt.Section, underDetector bool) {
 
 // ---------------------------------------------------------------------------
 
-const genRule = "generated rejected inputs: 0..5 blank or valid preceding lines (CJK identifiers, strings, comments, CRLF) + one damaged fragment (illegal first character, unclosed bracket/string possibly spanning lines, damaged template hole, keyword as name, malformed if/while/func, break/continue outside a loop, ^st and & forms, dangling operator, junk inside brackets, mutated valid line; long ASCII/2-/3-/4-byte fillers before or after the error) + optional tail, x 3 languages; accepted inputs are discarded and counted; non-trivial = some reported error is not at byte 0 (line 1 column 1); distinct by (language, input)"
+const genRule = "host dimension (both gen and mut): one case in three after SetParseErrorLanguage(bilingual|Chinese|English) was called (the VM's own setting must decide), one case in four on a VM with custom dice whose match takes blanks and line breaks with it (regex E(\\d+)\\s* or a stream parser) and one or two integer literals rewritten into such operands; generated rejected inputs: 0..5 blank or valid preceding lines (CJK identifiers, strings, comments, CRLF) + one damaged fragment (illegal first character, unclosed bracket/string possibly spanning lines, damaged template hole, keyword as name, malformed if/while/func, break/continue outside a loop, ^st and & forms, dangling operator, junk inside brackets, mutated valid line; long ASCII/2-/3-/4-byte fillers before or after the error) + optional tail, x 3 languages; accepted inputs are discarded and counted; non-trivial = some reported error is not at byte 0 (line 1 column 1); distinct by (language, input)"
 
 const mutRule = "GUIDE/test-suite programs damaged by 1..3 rune-boundary edits (cut, insert token, delete, replace, drop last closer, insert long run; half of the edits aimed at the first statement) x 3 languages; accepted inputs discarded and counted; non-trivial = some reported error is not at byte 0; distinct by (language, input)"
 
